@@ -83,7 +83,10 @@ CHECKS = {
         "global.time - generated obligation decided by vm_compute on the components extracted from real engines of all jobs), "
         "C06_router_clock / C06_concrete_play_clock: with the timer installed as a dispatcher a *.elapse moves the clock entity by "
         "exactly one spent(t) and nothing else moves it. Several simulations built in one process are run in turns on the "
-        "implementation (a clock shared between stores is invisible to checkpoint-restoring engines).",
+        "implementation (a clock shared between stores is invisible to checkpoint-restoring engines). The operation handlers "
+        "(policy/handlers.py: get_next_elapse_time, exec_cast/use/elapse/resolve/keydownstop and their table) are regenerated by "
+        "tools/tr_handlers.py on every run; C06_src_handlers_are_exec_op proves that driving the generated generators with the "
+        "engine's loop is the exec_op the engine theorems (C01, C03, C04, C06) are about.",
    note="Trusted: Coq kernel; the dispatch model's tie (H-dispatch correspondence; extraction of bound addresses from real engines); "
         "tick-valued time (binary64 rounding of clock additions outside); 'elapsed carries the elapse time' is proved per modelled "
         "component class (all 64) under C09.",
